@@ -86,6 +86,9 @@ func instrCount(fn *ssa.Function) int {
 }
 
 func (c *Ctx) callPolicy(callee *ssa.Function, ct *Contract, depth int) policy {
+	if ct != nil && ct.EffOnly {
+		ct = nil
+	}
 	if ct != nil {
 		if ct.External {
 			return polExternal
@@ -211,7 +214,7 @@ func (c *Ctx) execCall(fr *Frame, st *State, call *ssa.CallCommon, site ssa.Valu
 	key := fnKey(callee)
 	ct := c.eng.contracts[key]
 	// call-site assertions declared by the caller's contract
-	c.callSiteAsserts(fr, st, callee, args, "assert_before_call", pos)
+	c.callSiteAsserts(fr, st, callee, args, "assert_before_call", pos, siteInstr(site))
 	var res Val
 	cont := true
 	switch c.callPolicy(callee, ct, fr.depth) {
@@ -254,7 +257,7 @@ func (c *Ctx) execCall(fr *Frame, st *State, call *ssa.CallCommon, site ssa.Valu
 		c.havocAll(st, true)
 		res = c.havocVal(rt, "ext")
 	}
-	c.callSiteAsserts(fr, st, callee, args, "assert_after_call", pos)
+	c.callSiteAsserts(fr, st, callee, args, "assert_after_call", pos, siteInstr(site))
 	return res, cont
 }
 
@@ -380,7 +383,7 @@ func (c *Ctx) builtinSemantics(fr *Frame, st *State, callee *ssa.Function, args 
 	return Val{}, false
 }
 
-func (c *Ctx) callSiteAsserts(fr *Frame, st *State, callee *ssa.Function, args []Val, kind string, pos token.Pos) {
+func (c *Ctx) callSiteAsserts(fr *Frame, st *State, callee *ssa.Function, args []Val, kind string, pos token.Pos, at ssa.Instruction) {
 	if fr.contract == nil || !fr.top {
 		return
 	}
@@ -389,6 +392,7 @@ func (c *Ctx) callSiteAsserts(fr *Frame, st *State, callee *ssa.Function, args [
 			continue
 		}
 		env := c.specEnv(fr, st, fr.entry, nil)
+		env.at = at
 		for i, p := range callee.Params {
 			if i < len(args) {
 				env.vars["arg"+fmt.Sprint(i)] = args[i]
@@ -396,6 +400,19 @@ func (c *Ctx) callSiteAsserts(fr *Frame, st *State, callee *ssa.Function, args [
 			}
 		}
 		fr.callSeq[kind+cl.Name]++
+		if cl.InScope {
+			// attach only where every identifier of the assertion is in scope
+			env.soft = true
+			nobl := len(c.obls)
+			g := c.specBool(env, cl.Expr)
+			if len(env.errs) > 0 {
+				c.obls = c.obls[:nobl]
+				continue
+			}
+			cl.Attached++
+			c.oblige(kind, fmt.Sprintf("%s:%s#%d/%d", kind, cl.Name, fr.callSeq[kind+cl.Name], cl.Idx), st.reach, g, c.pos(pos)).Desc = cl.Text
+			continue
+		}
 		g := c.specBool(env, cl.Expr)
 		c.oblige(kind, fmt.Sprintf("%s:%s#%d/%d", kind, cl.Name, fr.callSeq[kind+cl.Name], cl.Idx), st.reach, g, c.pos(pos)).Desc = cl.Text
 	}
@@ -846,7 +863,7 @@ func (c *Ctx) execDeferred(fr *Frame, st *State, d deferred) {
 	}
 	key := fnKey(callee)
 	ct := c.eng.contracts[key]
-	c.callSiteAsserts(fr, st, callee, d.args, "assert_before_call", d.pos)
+	c.callSiteAsserts(fr, st, callee, d.args, "assert_before_call", d.pos, nil)
 	switch c.callPolicy(callee, ct, fr.depth) {
 	case polInline:
 		c.inlined[key] = true
@@ -870,4 +887,14 @@ func (c *Ctx) execDeferred(fr *Frame, st *State, d deferred) {
 		c.externals[key] = true
 		c.havocAll(st, true)
 	}
+}
+
+func siteInstr(site ssa.Value) ssa.Instruction {
+	if site == nil {
+		return nil
+	}
+	if in, ok := site.(ssa.Instruction); ok {
+		return in
+	}
+	return nil
 }
